@@ -1,26 +1,32 @@
 import Okane.Lemmas.LiteralSpec
+import Okane.Lemmas.LiteralPrint
 /-!
 # C07 — numeric literals mean exactly what is written
 
 Model: `Okane.Literal.scan` / `printPDec` (`core/src/syntax/pretty_decimal.rs`).
 Statement: `Okane.Spec.WellFormedLiteral`, `Representable`, `litValue`, `litScale`, `grouping` (`Spec/Literal.lean`).
 
-What is proved here, for ALL strings:
+What is proved here, for ALL strings (no length bound, any characters):
 * `C07_total`        — the scanner returns a value or an error: no panic site, no fuel (no crash, no hang).
 * `C07_closed_form`  — the byte state machine (`comma_pos` / `format` / `mantissa` / `scale` / `prefix_len` / `sign` /
-  `has_digit`, i128 checked arithmetic, end-of-input validation, `try_from_i128_with_scale`) accepts a string iff,
-  after an optional leading `-`, it is a run of digits followed by (a) nothing, (b) `.` and digits only, or
-  (c) — only after 1 to 3 leading digits — one or more complete groups `,ddd` and then nothing or `.` and digits;
-  and the value it returns is, field by field, the one written: mantissa = the digits read as one number, scale = the
-  number of digits after the point, format = grouped / plain (≥ 4 ungrouped integer digits) / none, sign = the
-  minus (never a negative zero), subject to |mantissa| < 2^96 and scale ≤ 28.  Everything else is an *error value*.
-* `C07_reject_is_error` — whatever the closed form does not accept is an error value.
-* `C07_print_naive_false` — `scan (print d) = d` is refuted by `0,123`; the correct law is `C07_print_stmt`.
-The full-strength statements against `Spec/Literal.lean` (`C07_sound_stmt`, `C07_complete_stmt`, `C07_reject_stmt`,
-`C07_print_stmt`) are kept visible below; their reduction to `C07_closed_form` is list reasoning about
-`takeWhile`/`dropWhile` that is not yet mechanised — on every run the correspondence stream evaluates the Lean
-`Spec` predicates, the closed form's consequences and an independent regular expression on every string up to
-length 6/7 over the class alphabet and on the random long literals, and compares them with the real code.
+  `has_digit`, i128 checked arithmetic, end-of-input validation, `try_from_i128_with_scale`) equals a closed form
+  (`bodySpec`, Lemmas/Literal.lean).
+* `C07_scan_spec`    — the closed form IS the specification (Lemmas/LiteralSpec.lean, `bodySpec_eq_spec`):
+  `acc (scan s) = if WellFormedLiteral s ∧ Representable s then some (litDec s) else none`, where `litDec s` is the
+  decimal written (sign unless zero, `litMant`, `litScale`, `grouping`).
+* `C07_sound`, `C07_complete`, `C07_reject` — the three statements of the property, exactly as stated
+  (`C07_sound_stmt`, `C07_complete_stmt`, `C07_reject_stmt`), all corollaries of `C07_scan_spec`; `C07_sound_fields`
+  adds mantissa and sign (never a negative zero).  The corners `-0`, `-0.00`, leading zeros (`0012`), `0,123`, `.5`, `5.`
+  do not falsify the statements as written: `litValue` of `-0` is `0 = toRat`, and `grouping "0,123" = comma3dot` is
+  what the scanner records.
+* `C07_print_exact`  — for EVERY decimal with mantissa < 2^96 and scale ≤ 28 (not only scanner outputs): the printed text
+  (`Display for Decimal` for Plain/None, the hand-written `Comma3Dot` loop) is accepted again with the same mantissa,
+  scale, sign (zero unsigned) and grouping style `printedFmt d` (Lemmas/LiteralPrint.lean: `printPlain_spec`,
+  `printComma_spec`, `groupLoop_first`, `groupLoop_tail`).
+* `C07_print`        — the print law as stated (`C07_print_stmt`); `C07_print_value` / `C07_print_text`: the printed
+  text is a well-formed literal with the value and decimal places that were written.
+* `C07_print_naive_false` — `scan (print d) = d` is refuted by `0,123` (prints `123`): that is why the grouping clause
+  of `C07_print_stmt` is conditional on an integer part ≥ 1000.
 -/
 namespace Okane.C07
 open Okane Okane.Literal
@@ -200,6 +206,86 @@ theorem C07_print_naive_false : ¬ C07_print_naive := by
   have := h "0,123".toList ⟨false, 123, 0, some .comma3dot⟩ (by decide +kernel)
   revert this
   decide +kernel
+
+/-! ## The print / re-read law -/
+
+/-- the grouping style a printed decimal shows: none below 1000; otherwise commas iff the decimal is tagged `Comma3Dot` -/
+def printedFmt (d : PDec) : Option Fmt :=
+  if 1000 ≤ d.mant / 10 ^ d.scale then (if d.fmt = some .comma3dot then some .comma3dot else some .plain) else none
+
+/-- **C07_print_exact**: for EVERY decimal within rust_decimal's range (not only scanner outputs), re-reading the printed
+text succeeds and returns the same mantissa and scale, the same sign (a zero loses its sign), and the grouping style
+`printedFmt d`. -/
+theorem C07_print_exact (d : PDec) (hm : d.mant < 2 ^ 96) (hs : d.scale ≤ 28) :
+    scan (printPDec d) = .ok ⟨d.neg && d.mant != 0, d.mant, d.scale, printedFmt d⟩ := by
+  obtain ⟨h1, h2, h3, h4, h5⟩ := printPDec_spec d
+  rw [scan_ok_iff]
+  refine ⟨⟨h1, ?_⟩, ?_⟩
+  · simp [Spec.Representable, h2, h3, hm, hs]
+  · unfold litDec printedFmt
+    rw [h2, h3, h4, h5]
+
+/-- **C07_print**: printing an accepted literal and reading the text again yields the same sign, mantissa and scale
+(hence the same value and decimal places) and, where there is something to group (integer part ≥ 1000), the same
+grouping style. -/
+theorem C07_print : C07_print_stmt := by
+  intro s d h
+  obtain ⟨⟨hw, _⟩, hd⟩ := (scan_ok_iff s d).mp h
+  obtain ⟨f1, f2, f3, f4, f5, f6⟩ := C07_sound_fields s d h
+  refine ⟨_, C07_print_exact d f5 f6, ?_, rfl, rfl, ?_⟩
+  · show (d.neg && d.mant != 0) = d.neg
+    rw [f2, f1]
+    cases Spec.isNegative s <;> simp
+  · intro hge
+    show printedFmt d = d.fmt
+    unfold printedFmt
+    rw [if_pos hge]
+    cases hfmt : d.fmt with
+    | none =>
+      exfalso
+      have := grouping_none_small s hw (by rw [← f4]; exact hfmt)
+      rw [← f1, ← f3] at this
+      omega
+    | some f => cases f <;> simp
+
+/-- printing preserves the value -/
+theorem C07_print_value (s : List Char) (d : PDec) (h : scan s = .ok d) :
+    ∃ d', scan (printPDec d) = .ok d' ∧ d'.toRat = Spec.litValue s ∧ d'.scale = Spec.litScale s := by
+  obtain ⟨d', h1, h2, h3, h4, _⟩ := C07_print s d h
+  obtain ⟨_, _, h5, h6, _⟩ := C07_sound s d h
+  refine ⟨d', h1, ?_, by rw [h4, h6]⟩
+  rw [← h5]
+  unfold PDec.toRat
+  rw [h2, h3, h4]
+
+/-- the printed text is itself a well-formed literal with the value and decimal places that were written -/
+theorem C07_print_text (s : List Char) (d : PDec) (h : scan s = .ok d) :
+    Spec.WellFormedLiteral (printPDec d) = true ∧ Spec.litValue (printPDec d) = Spec.litValue s ∧
+    Spec.litScale (printPDec d) = Spec.litScale s := by
+  obtain ⟨d', h1, h2, h3⟩ := C07_print_value s d h
+  obtain ⟨g1, _, g3, g4, _⟩ := C07_sound _ _ h1
+  exact ⟨g1, by rw [← g3, h2], by rw [← g4, h3]⟩
+
+example : scan "1,234.50".toList = .ok ⟨false, 123450, 2, some .comma3dot⟩ ∧
+    printPDec ⟨false, 123450, 2, some .comma3dot⟩ = "1,234.50".toList := by decide +kernel
+example : printPDec ⟨true, 1234567, 0, some .plain⟩ = "-1234567".toList ∧
+    printedFmt ⟨true, 1234567, 0, some .plain⟩ = some .plain := by decide +kernel
+example : printPDec ⟨false, 5, 3, some .comma3dot⟩ = "0.005".toList := by decide +kernel
+
+/-! ## Non-vacuity: the theorems applied to concrete literals -/
+
+example : Spec.litValue "-1,234.50".toList = (-123450 : Rat) / 100 := by decide +kernel
+/-- soundness instantiated: the hypothesis is satisfiable and the conclusion is informative -/
+example : (⟨true, 123450, 2, some .comma3dot⟩ : PDec).toRat = Spec.litValue "-1,234.50".toList :=
+  (C07_sound "-1,234.50".toList _ (by decide +kernel)).2.2.1
+example : ∃ d, scan "0012.5".toList = .ok d := C07_complete _ (by decide +kernel) (by decide +kernel)
+example : ∃ e, scan "1,234,56".toList = .err e := C07_reject _ (by decide +kernel)
+example : ∃ e, scan ('0' :: '.' :: List.replicate 29 '1') = .err e := C07_reject _ (by decide +kernel)
+example : ∃ d', scan (printPDec ⟨false, 123450, 2, some .comma3dot⟩) = .ok d' ∧ d'.fmt = some .comma3dot := by
+  obtain ⟨d', h1, _, _, _, h5⟩ := C07_print "1,234.50".toList ⟨false, 123450, 2, some .comma3dot⟩ (by decide +kernel)
+  exact ⟨d', h1, h5 (by decide)⟩
+example : scan (printPDec ⟨true, 0, 2, none⟩) = .ok ⟨false, 0, 2, none⟩ :=
+  C07_print_exact ⟨true, 0, 2, none⟩ (by decide) (by decide)
 
 /-! ## Non-vacuity: accepted and rejected witnesses through the closed form -/
 
